@@ -324,3 +324,28 @@ pub fn c05_sides_of_noon() {
         assert!(arc >= 0. && arc <= 0.5000001, "C02 the semi-diurnal arc is between 0 and half a day");
     }
 }
+
+// =====================================================================================
+// NOT ADMITTED (timed out at 1500 s on the unchanged tree; not registered in lib/props.py, kept for the record):
+// C12 — a minute offset on the prayer's own key shifts the instant by exactly offset/60 h:
+// with unrounded seconds the reported time is the truncated second of (hour + offset/60) folded into the day
+#[kani::proof]
+#[kani::unwind(7)]
+pub fn c12_offset_shifts_instant() {
+    let hour = any_f64_in(0., 24.);
+    let off = any_f64_in(-1500., 1500.);
+    let h = hour + off / 60.;
+    kani::assume(h >= -24. && h < 24.);
+    let prayer: Prayer = crate::verif_kani::any_prayer6();
+    crate::vcover!();
+    let p0 = mk_params(RoundSeconds::None, prayer, off);
+    let t0 = hour_to_time(&p0, prayer, hour).num_seconds_from_midnight();
+    let mut hw = h;
+    while hw < 0. {
+        hw += 24.;
+    }
+    let secs = if hw * 3600. >= 86400. { hw * 3600. - 86400. } else { hw * 3600. };
+    assert!(t0 < 86400, "C12 result is a time of day");
+    assert!((t0 as f64) <= secs + 1e-6 && secs < (t0 as f64) + 1. + 1e-6, "C12 a minute offset shifts exactly that prayer by exactly that many minutes (unrounded: the truncated second of hour + offset/60)");
+    kani::cover!(h < 0., "VACUITY-GUARD offset pushes the instant before midnight");
+}
